@@ -20,6 +20,7 @@ def run(m):
             if m["old"] not in s: return m, "PATTERN-NOT-FOUND", "", False
             open(p, "w").write(s.replace(m["old"], m["new"], 1))
         env = dict(os.environ, MDPAX_SRC=d + "/src", VERIF_NO_HARNESS="1", VERIF_OUT_DIR=d)
+        if m.get("harness"): env.pop("VERIF_NO_HARNESS")          # rows whose expected outcome involves the bounded fallback
         pr = subprocess.run([os.path.join(ROOT, "bin", "check"), m["property"], "--tier", "quick"], capture_output=True, text=True, env=env, cwd=ROOT)
         out = pr.stdout
         obl = []
@@ -29,6 +30,7 @@ def run(m):
                 try: obl.append(json.load(open(mm.group(1) if os.path.isabs(mm.group(1)) else os.path.join(ROOT, mm.group(1))))["obligation"])
                 except Exception: pass
         if m["expect"] == "none": good = pr.returncode == 0
+        elif m["expect"] == "fallback": good = pr.returncode == 0 and "BOUNDED-FALLBACK" in out and "VIOLATION" not in out
         else: good = pr.returncode == 1 and any(m["expect"] in o for o in obl)
         return m, ("rc=%d" % pr.returncode), (obl[0] if obl else out.strip().splitlines()[-1][:160] if out.strip() else ""), good
     finally:
@@ -37,5 +39,5 @@ with ThreadPoolExecutor(max_workers=6) as ex: rows = list(ex.map(run, muts))
 ok = True
 for m, rc, what, good in rows:
     ok &= good
-    print(f"{m['id']:5} {m['property']:4} {'caught ' if good and m['expect'] != 'none' else ('neutral' if good else 'MISSED ')} {rc:6} | {m['note'][:50]:50} | {what[-110:]}")
+    print(f"{m['id']:5} {m['property']:4} {'fallback' if good and m['expect'] == 'fallback' else 'caught ' if good and m['expect'] != 'none' else ('neutral' if good else 'MISSED ')} {rc:6} | {m['note'][:50]:50} | {what[-110:]}")
 print("MUTATION TABLE OK" if ok else "MUTATION TABLE HAS MISSES"); sys.exit(0 if ok else 1)
